@@ -5,6 +5,8 @@ import MoPepGen.Driver.C20
 import MoPepGen.Driver.S
 import MoPepGen.Driver.C11
 import MoPepGen.Driver.C13
+import MoPepGen.Driver.C18
+import MoPepGen.Driver.C19
 
 /-- one line in (`<stream>\t<op>\t<args…>`), one line out -/
 def dispatch (line : String) : String :=
@@ -16,6 +18,8 @@ def dispatch (line : String) : String :=
   | "S" :: args => MoPepGen.Driver.S.handle args
   | "C11" :: args => MoPepGen.Driver.C11.handle args
   | "C13" :: args => MoPepGen.Driver.C13.handle args
+  | "C18" :: args => MoPepGen.Driver.C18.handle args
+  | "C19" :: args => MoPepGen.Driver.C19.handle args
   | _ => "bad-stream"
 
 partial def loop (h : IO.FS.Stream) (out : IO.FS.Stream) : IO Unit := do
